@@ -158,4 +158,12 @@ CHECKS = {
         "design_ref": "DESIGN.md section 3, C04",
         "note": "Dask paths on the synchronous scheduler (threaded race = C07's known finding K2). Models without an offline recipe (cosmix, charge_deposition x2, nghxrg) are counted as skipped in evidence. pulse_processing's minutes-long phase conversion is stubbed from outside.",
     },
+    "C07": {
+        "technique": "differential property-based testing: with_dask result under generated schedulers (synchronous, thread pools of 1/2/4/16, process pools of 2/4) with data-dependent delays vs the sequential result, compared label by label; harness-owned schedule (barrier) for the known seeding race; calibration outcome differential across schedulers and island-creation modes",
+        "text": "Generated parameter spaces run sequentially and with_dask under sampled schedulers and worker counts, with a value-dependent delay probe perturbing completion order, deterministic or seeded-stochastic pipelines, "
+                "outputs on or off: every bucket and every reported file must agree with the sequential result at the same label. Calibrations with fixed seeds (1..3 unconnected islands) must report identical champions under the "
+                "synchronous scheduler, thread pools of 4 and 16 and with serial island creation. Exploration: free-running pools are sampled, the oracle is schedule independent.",
+        "design_ref": "DESIGN.md section 3, C07",
+        "note": "Known findings K1 (sequential mode, >=2 parameters) and K2 (seeded stochastic pipelines under threads; made deterministic with a barrier) are excluded from the generator and probed. Connected island topologies use pygmo's asynchronous migration and are not asserted.",
+    },
 }
